@@ -199,6 +199,7 @@ package types
 
 //@ func Params.Validate(p) (err)
 //@   props C16
+//@   nopanic
 //@   ensures @denom err == nil ==> validDenom(p.Denom)
 //@   ensures @fees_positive err == nil ==> p.FeeRegister >= 1 && p.FeeRecord >= 1 && p.FeePurchaseStorage >= 1
 //@   ensures @limits err == nil ==> p.DefaultStorageLimit >= 1 && p.MaxStorageLimit >= 1 && p.DefaultStorageLimit <= p.MaxStorageLimit
